@@ -25,6 +25,7 @@ repo, gen = sys.argv[1], sys.argv[2]
 csrc = cut_tests(strip_rust_comments(read_source(repo, "rs/anda_db/src/collection.rs")))
 wsrc = cut_tests(strip_rust_comments(read_source(repo, "rs/anda_db/src/index/btree.rs")))
 bsrc = cut_tests(strip_rust_comments(read_source(repo, "rs/anda_db_btree/src/btree.rs")))
+dsrc = cut_tests(strip_rust_comments(read_source(repo, "rs/anda_db/src/database.rs")))
 
 
 def fail(msg):
@@ -159,7 +160,12 @@ def expander(src, opaque):
 
 cexp = expander(csrc, ["ensure_allocation_watermark", "doc_path", "poison", "update_metadata", "doc_lock",
                        "record_mutation_intent", "purge_dead_ids_from_indexes", "ensure_mutable",
-                       "backfill_btree_index", "for_each_existing_document"])
+                       "backfill_btree_index", "for_each_existing_document",
+                       # crash recovery: the phases and their building blocks are calls with a meaning of their own
+                       "load_indexes", "try_upgrade_schema", "replay_mutation_intents", "reconcile_mutation_intents",
+                       "auto_repair_indexes", "repair_document", "remove_document_from_indexes",
+                       "insert_document_into_indexes", "clear_mutation_intents", "mutation_intent_path"])
+dexp = expander(dsrc, ["drain_operations"])
 wexp = expander(wsrc, ["insert", "remove", "update", "batch_update", "insert_array", "remove_array",
                        "values_equal", "convert_array_values", "name"])
 bexp = expander(bsrc, ["try_cbor_serialized_size", "json_value", "try_posting_entry_size", "mark_bucket_dirty",
@@ -343,6 +349,59 @@ wvf = fn_body(wsrc, "with_virtual_field")
 c_multi_unique = bool(re.search(r"\ballow_duplicates\s*:\s*false\b", wvf))
 
 
+
+# ------------------------------------------------------------------------------------------------
+# crash recovery: Collection::open = load, callback, replay_mutation_intents, auto_repair_indexes;
+# AndaDB::open_collection ends with a flush
+# ------------------------------------------------------------------------------------------------
+m_sig = re.search(r"\bfn\s+open\b\s*<[^>]*>\s*\(", csrc)
+if not m_sig:
+    fail("signature of Collection::open not found")
+sig = csrc[m_sig.end():close_of(csrc, m_sig.end())]
+m_cb = re.search(r"\b(\w+)\s*:\s*F\b", sig)
+if not m_cb:
+    fail("Collection::open has no callback parameter of type F")
+opn = cexp("open")
+rec_pos = {0: pos(opn, r"(?<![\w.:])" + m_cb.group(1) + r"\s*\(", "Collection::open: call of the callback"),
+           1: pos(opn, r"\breplay_mutation_intents\s*\(", "Collection::open: replay_mutation_intents"),
+           2: pos(opn, r"\bauto_repair_indexes\s*\(", "Collection::open: auto_repair_indexes")}
+recovery_order = sorted(rec_pos, key=lambda k: rec_pos[k])
+rec_load_first = pos(opn, r"\bload_indexes\s*\(", "Collection::open: load_indexes") < min(rec_pos.values())
+rpl = cexp("replay_mutation_intents")
+rec_replay_reconciles = bool(re.search(r"\breconcile_mutation_intents\s*\(", rpl))
+rcn = cexp("reconcile_mutation_intents")
+r_removes = [m.start() for m in re.finditer(r"\bremove_document_from_indexes\s*\(", rcn)]
+r_fetch = pos(rcn, r"\bstorage\s*\.\s*fetch\b", "reconcile_mutation_intents: fetch of the stored document")
+r_insert = pos(rcn, r"\binsert_document_into_indexes\s*\(", "reconcile_mutation_intents: re-index")
+if not r_removes:
+    fail("reconcile_mutation_intents never calls remove_document_from_indexes")
+# every recorded image is un-indexed before any stored document is consulted; the stored document's own
+# values are removed before they are re-inserted; the id is registered after the re-index
+rec_images_first = min(r_removes) < r_fetch
+rec_remove_before_reinsert = any(r_fetch < p < r_insert for p in r_removes)
+rec_register_after = r_insert < pos(rcn[r_insert:], r"\bdoc_ids\s*\.\s*write\s*\(\s*\)\s*\.\s*add\s*\(", "reconcile_mutation_intents: id registration") + r_insert
+rec_gone_unregisters = bool(re.search(r"\bdoc_ids\s*\.\s*write\s*\(\s*\)\s*\.\s*remove\s*\(", rcn[r_insert:]))
+scn = cexp("auto_repair_indexes")
+rec_scan_window = bool(re.search(r"\bcheck_point\s*\+\s*1\b", scn)) and bool(re.search(r"\brepair_document\s*\(", scn))
+rpd = cexp("repair_document")
+# repair: every index on its own (no `?` after an index insert); insert_document_into_indexes: first refusal ends it
+rec_repair_best_effort = len(method_calls(rpd, "insert")) >= 3 and not any(q for _, a, q in method_calls(rpd, "insert") if len(a) == 3)
+idi = cexp("insert_document_into_indexes")
+idi_ins = [q for _, a, q in method_calls(idi, "insert") if len(a) == 3]
+rec_reinsert_stops = len(idi_ins) == 3 and all(idi_ins)
+rdi = cexp("remove_document_from_indexes")
+rec_remove_all_families = sorted(len(a) for _, a, _ in method_calls(rdi, "remove")) == [2, 3, 3]
+ocs = dexp("open_collection_with_schema")
+rec_open_flushes = pos(ocs, r"\bCollection::open\s*\(", "open_collection_with_schema: Collection::open") < pos(ocs, r"\.\s*flush\s*\(", "open_collection_with_schema: final flush")
+# flush_inner: the intents are retired last (after indexes, metadata, ids, checkpoint)
+fli = cexp("flush_inner")
+rec_intents_retired_last = max(last_pos(fli, r"\bstore_indexes\s*\(", "flush_inner store_indexes"), last_pos(fli, r"\bstore_ids\s*\(", "flush_inner store_ids"),
+                               last_pos(fli, r"\bstorage\s*\.\s*store_metadata\s*\(", "flush_inner checkpoint")) < pos(fli, r"\bclear_mutation_intents\s*\(", "flush_inner clear_mutation_intents")
+# update_impl / remove_impl: the intent is written before the first index is touched
+upd_intent_first = pos(u_text, r"\brecord_mutation_intent\s*\(", "update_impl record_mutation_intent") < u_hook[upd_fams[0]]
+rem_intent_first = pos(r_text, r"\brecord_mutation_intent\s*\(", "remove_impl record_mutation_intent") < r_hook[rem_fams[0]]
+
+
 def b(x):
     return "true" if x else "false"
 
@@ -415,6 +474,30 @@ def createBackfillBeforeRegister : Bool := {b(c_backfill_first and c_both_backfi
 def createUniqueAtFront : Bool := {b(c_unique_front and c_multi_front)}
 def multiFieldIsUnique : Bool := {b(c_multi_unique)}
 
+/-- crash recovery (`Model/CollCrash.lean`). `Collection::open` after loading the last flush: 0 = the caller's
+callback, 1 = `replay_mutation_intents`, 2 = `auto_repair_indexes`, in the order the code has them -/
+def recoveryOrder : List Nat := [{", ".join(str(k) for k in recovery_order)}]
+/-- `load_indexes` precedes all of them; `replay_mutation_intents` reconciles through `reconcile_mutation_intents` -/
+def recoverLoadsFirst : Bool := {b(rec_load_first and rec_replay_reconciles)}
+/-- `reconcile_mutation_intents`: the indexed values of every recorded image are removed before any stored
+document is consulted; the stored document's own values are removed before they are re-inserted; the id is
+registered after the re-index; a document that is gone is unregistered -/
+def replayImagesFirst : Bool := {b(rec_images_first)}
+def replayRemoveBeforeReinsert : Bool := {b(rec_remove_before_reinsert)}
+def replayRegistersAfterReindex : Bool := {b(rec_register_after and rec_gone_unregisters)}
+/-- `remove_document_from_indexes` removes from all three families; `insert_document_into_indexes` ends at the
+first index that refuses; `repair_document` tries every index on its own -/
+def removeDocAllFamilies : Bool := {b(rec_remove_all_families)}
+def reinsertStopsAtFirstRefusal : Bool := {b(rec_reinsert_stops)}
+def repairIsBestEffort : Bool := {b(rec_repair_best_effort)}
+/-- `auto_repair_indexes` probes `check_point + 1 ..` and hands every document object to `repair_document` -/
+def scanStartsAboveCheckpoint : Bool := {b(rec_scan_window)}
+/-- `open_collection_with_schema`: `Collection::open`, then a flush; `flush_inner` retires the intents last;
+`update_impl` / `remove_impl` write their intent before the first index is touched -/
+def openEndsWithFlush : Bool := {b(rec_open_flushes)}
+def intentsRetiredLast : Bool := {b(rec_intents_retired_last)}
+def intentBeforeIndexes : Bool := {b(upd_intent_first and rem_intent_first)}
+
 /-- the shape `Model/Collection.lean` (`add`, `update`, `remove`, `phases`, `addBtF`, `addTxF`, `addHnF`,
 `updBtF`, `updTxF`, `btUpdate`, `relBatchUpdate`, `relInsertArray`, `createBt`) was written against -/
 theorem gen_family_order : addFamilies = [0, 1, 2] ∧ updFamilies = [0, 1, 2] ∧ remFamilies = [0, 1, 2] := by decide
@@ -426,6 +509,10 @@ theorem gen_update_shape : (updValidateBeforeIndexes && updBtRecordedAfter && up
 theorem gen_remove_shape : (remIndexesBeforeDelete && remDeleteBeforeIds) = true := by decide
 theorem gen_btree_shape : (wrapperEqualIsNoop && wrapperInsertBeforeRemove && batchInsertBeforeRemove &&
     insertArrayPrecheck && insertArrayRecheckInEntry && insertCheckInEntry) = true := by decide
+theorem gen_recover_order : recoveryOrder = [0, 1, 2] := by decide
+theorem gen_recover_shape : (recoverLoadsFirst && replayImagesFirst && replayRemoveBeforeReinsert &&
+    replayRegistersAfterReindex && removeDocAllFamilies && reinsertStopsAtFirstRefusal && repairIsBestEffort &&
+    scanStartsAboveCheckpoint && openEndsWithFlush && intentsRetiredLast && intentBeforeIndexes) = true := by decide
 theorem gen_create_shape : (createBackfillBeforeRegister && createUniqueAtFront && multiFieldIsUnique) = true := by decide
 
 end AndaVerif.Gen.CollOrder
